@@ -6,7 +6,9 @@ From Coq Require Import Floats Reals List Lia Lra.
 From ADV Require Import Base.Num C05.Model C05.Spec C05.ProofsBase C05.ProofsChol C05.ProofsLdl
                         C05.ProofsHouse C05.ProofsGivens C05.Refuted
                         C05.ProofsHouse2 C05.ProofsBlock C05.ProofsTrace C05.ProofsHess C05.ProofsGS
-                        C05.ProofsLdl2 C05.ProofsChol2 C05.ProofsTridiag C05.ProofsBidiag C05.ProofsTridiag2 C05.ProofsOpts C05.ProofsBand C05.CorrTrace C05.ProofsTraceTie C05.Corr32.
+                        C05.ProofsLdl2 C05.ProofsChol2 C05.ProofsTridiag C05.ProofsBidiag C05.ProofsTridiag2 C05.ProofsOpts C05.ProofsBand C05.CorrTrace C05.ProofsTraceTie C05.Corr32
+                        C05.ModelIter C05.SpecIter C05.ProofsIterSymSweep C05.ProofsIterSymLoop
+                        C05.ProofsIterFrSweep C05.ProofsIterFrLoop C05.ProofsIterSvdSweep C05.ProofsIterSvdLoop.
 Import ListNotations.
 Open Scope R_scope.
 
@@ -515,6 +517,93 @@ Theorem forcepd_inplace_aliasing_refuted :
   C05.Corr32.fpd32 [[4%float]] = Some ([[1%float]], [[4%float]]) /\
   C05.Corr32.fpd32_inplace [[4%float]] = Some ([[1%float]], [[1%float]]).
 Proof. exact C05.Corr32.fpd32_inplace_differs. Qed.
+
+(* 9. FUELLED LOOP MODELS of the iterative routines (round 5; C05.ModelIter: symqr, francis, gksvd — the
+      whole control flow of qrAlgorithm_symmetric.go, qrAlgorithm.go and svd.go is part of the model:
+      deflation pass, split search, shift, sweep, 2x2 post-processing; one unit of fuel per iteration of
+      the outer loop).  TIE: C05.CorrIter.icheck recomputes the WHOLE run from the input on binary64 and
+      demands bit-equal factors (fresh calls, caller-supplied non-identity InSitu buffers, second runs of
+      InSitu-reuse histories, default and explicit Epsilon, Float64 and Real64).
+      THEOREMS, for EVERY fuel (= after every number of outer iterations), every epsilon and every input:
+      the state has the promised structure, the accumulator is orthogonal, and U H U^T is reached from the
+      input by deflation steps AS CODED only (X_reach of C05.SpecIter: each step zeroes one entry that
+      passed the routine's own test |x21| <= eps (|x11| + |x22|), in orthogonally similar coordinates):
+      every sweep, rotation and reflector in between is an EXACT orthogonal similarity although the code
+      applies them through the banded shortcuts / on sub-blocks only (bulge-chasing invariant proved for
+      every size).  With eps = 0 the similarity U H U^T = A is exact for every fuel.  A converged run ends
+      diagonal (symmetric) resp. quasi upper triangular (Francis). *)
+Theorem symmetric_qr_sweep_is_orthogonal_similarity : sym_sweep_spec.
+Proof. exact sym_sweep_sound. Qed.
+
+Theorem symmetric_qr_every_iterate :
+  forall (fuel : nat) (eps : R) (A : rmat) (n : nat),
+  dims n n A -> symmetric n A ->
+  exists T Z conv, symqr XR fuel eps true A = (T, Some Z, conv) /\
+    dims n n T /\ symmetric n T /\ tridiagonal T /\ dims n n Z /\ orth n (G Z) /\
+    sym_reach eps n (G A) (uhut n (G T, G Z)) /\
+    (conv = true -> forall i j, i <> j -> G T i j = 0).
+Proof. exact (symqr_reach_from_sweep sym_sweep_sound). Qed.
+
+Theorem symmetric_qr_exact_similarity_without_deflation_tolerance :
+  forall (fuel : nat) (A : rmat) (n : nat),
+  dims n n A -> symmetric n A ->
+  exists T Z conv, symqr XR fuel 0 true A = (T, Some Z, conv) /\
+    orth n (G Z) /\ meq n n (uhut n (G T, G Z)) (G A).
+Proof. exact (symqr_eps0_similarity_from_sweep sym_sweep_sound). Qed.
+
+Theorem symmetric_qr_deflation_only_zeroes_negligible_entries :
+  forall eps n (T : rmat) i a b, dims n n T -> (S i < n)%nat ->
+   G (sym_defl_at XR eps T i) a b = G T a b \/
+   (((a = S i /\ b = i) \/ (a = i /\ b = S i)) /\ G (sym_defl_at XR eps T i) a b = 0 /\
+     Rabs (G T (S i) i) <= eps * (Rabs (G T i i) + Rabs (G T (S i) (S i)))).
+Proof. exact sym_defl_at_effect. Qed.
+
+Theorem symmetric_qr_T_independent_of_computeU :
+  forall p nn Tb Z, fst (sym_sweep XR p nn Tb None) = fst (sym_sweep XR p nn Tb (Some Z)).
+Proof. exact sym_sweep_T_independent_of_Z. Qed.
+
+Theorem francis_sweep_is_orthogonal_similarity : francis_sweep_spec.
+Proof. exact francis_sweep_sound. Qed.
+
+Theorem single_shift_2x2_step_is_orthogonal_similarity : qr2_step_spec.
+Proof. exact qr2_step_sound. Qed.
+
+Theorem francis_qr_every_iterate :
+  forall (fuel : nat) (eps : R) (A : rmat) (n : nat),
+  dims n n A ->
+  exists H U conv, francis XR fuel eps true A = (H, Some U, conv) /\
+    dims n n H /\ upper_hessenberg H /\ dims n n U /\ orth n (G U) /\
+    fr_reach eps n (G A) (uhut n (G H, G U)) /\
+    (conv = true -> forall i, (i + 2 < n)%nat -> G H (S i) i = 0 \/ G H (S (S i)) (S i) = 0).
+Proof. exact (francis_reach_from_sweep francis_sweep_sound qr2_step_sound). Qed.
+
+Theorem francis_qr_exact_similarity_without_deflation_tolerance :
+  forall n A0 A1, fr_reach 0 n A0 A1 -> meq n n A1 A0.
+Proof. exact fr_reach_eps0_hess. Qed.
+
+Theorem golub_kahan_sweep_is_orthogonal_equivalence : gk_sweep_spec.
+Proof. exact gk_sweep_sound. Qed.
+
+Theorem svd_zero_row_chase_is_orthogonal_equivalence : zero_row_spec.
+Proof. exact zero_row_sound. Qed.
+
+(* SVD (m x n, n <= m, both accumulators): for every fuel and epsilon H is upper bidiagonal, U and V are
+   orthogonal, U H V^T is reached from A by super-diagonal deflations as coded only, and a converged run
+   ends with a DIAGONAL H whose diagonal is non-negative (the final sign flips negate column i of V
+   together with H_ii, which keeps U H V^T because H is diagonal at that point). *)
+Theorem svd_every_iterate :
+  forall (fuel : nat) (eps : R) (A : rmat) (m n : nat),
+  dims m n A -> (1 <= n <= m)%nat ->
+  exists H U Vm conv, gksvd XR fuel eps true true A = ((H, Some U, Some Vm), conv) /\
+    dims m n H /\ dims m m U /\ dims n n Vm /\ orth m (G U) /\ orth n (G Vm) /\
+    upper_bidiagonal H /\
+    svd_reach eps m n (G A) (ubvt m n (mkSvd (G H) (G U) (G Vm))) /\
+    (conv = true -> (forall i j, i <> j -> G H i j = 0) /\ (forall i, 0 <= G H i i)).
+Proof. exact (gksvd_reach_from_sweep gk_sweep_sound zero_row_sound). Qed.
+
+Theorem svd_exact_equivalence_without_deflation_tolerance :
+  forall m n A0 A1, svd_reach 0 m n A0 A1 -> meq m n A1 A0.
+Proof. exact svd_reach_eps0. Qed.
 
 (* the hypotheses are satisfiable by a non-trivial instance *)
 Example cholesky_hyps_satisfiable :
